@@ -4,6 +4,7 @@
 package hubkit
 
 import (
+	"bytes"
 	"fmt"
 	"net"
 	"net/http"
@@ -348,48 +349,90 @@ func KeepAlive(ps []*Peer) {
 	}
 }
 
-// Payload helpers for self-identifying text payloads "<id,sender,seq,topic>".
+// Payload helpers for self-identifying text payloads "<id,sender,seq,topic>" and, with a filler,
+// "<#id,sender,seq,n,topic>" followed by n bytes derived from (id, sender, seq): content that belongs
+// to another message, or to none, is then recognisable.
 func Payload(id, sender uint64, seq int, topic string) []byte {
 	return []byte(fmt.Sprintf("<%d,%d,%d,%s>", id, sender, seq, topic))
+}
+
+func filler(id, sender uint64, seq int, n int) []byte {
+	b := make([]byte, n)
+	x := uint32(id*2654435761) ^ uint32(sender*40503) ^ uint32(seq*977)
+	for i := range b {
+		x = x*1664525 + 1013904223
+		b[i] = 'a' + byte((x>>24)%26)
+	}
+	return b
+}
+
+func PayloadFill(id, sender uint64, seq int, topic string, n int) []byte {
+	h := []byte(fmt.Sprintf("<#%d,%d,%d,%d,%s>", id, sender, seq, n, topic))
+	return append(h, filler(id, sender, seq, n)...)
 }
 
 type Tag struct {
 	ID, Sender uint64
 	Seq        int
 	Topic      string
+	BadFill    bool // the bytes after the header are not the ones this header announces
 }
 
 // ParseTags extracts every payload of a frame (the writer may have merged several); junk is the
 // number of bytes that are not part of any well-formed payload.
 func ParseTags(data []byte) (tags []Tag, junk int) {
-	s := string(data)
+	s := data
 	for len(s) > 0 {
 		if s[0] != '<' {
 			junk++
 			s = s[1:]
 			continue
 		}
-		end := strings.IndexByte(s, '>')
-		if end < 0 {
-			junk += len(s)
-			break
+		end := bytes.IndexByte(s, '>')
+		if end < 0 || end > 200 {
+			junk++
+			s = s[1:]
+			continue
 		}
 		var t Tag
-		parts := strings.SplitN(s[1:end], ",", 4)
-		ok := len(parts) == 4
-		if ok {
-			_, e1 := fmt.Sscanf(parts[0], "%d", &t.ID)
-			_, e2 := fmt.Sscanf(parts[1], "%d", &t.Sender)
-			_, e3 := fmt.Sscanf(parts[2], "%d", &t.Seq)
-			t.Topic = parts[3]
-			ok = e1 == nil && e2 == nil && e3 == nil
-		}
-		if ok {
-			tags = append(tags, t)
+		fill := -1
+		hdr := string(s[1:end])
+		ok := false
+		if strings.HasPrefix(hdr, "#") {
+			parts := strings.SplitN(hdr[1:], ",", 5)
+			if len(parts) == 5 {
+				_, e1 := fmt.Sscanf(parts[0], "%d", &t.ID)
+				_, e2 := fmt.Sscanf(parts[1], "%d", &t.Sender)
+				_, e3 := fmt.Sscanf(parts[2], "%d", &t.Seq)
+				_, e4 := fmt.Sscanf(parts[3], "%d", &fill)
+				t.Topic = parts[4]
+				ok = e1 == nil && e2 == nil && e3 == nil && e4 == nil && fill >= 0
+			}
 		} else {
-			junk += end + 1
+			parts := strings.SplitN(hdr, ",", 4)
+			if len(parts) == 4 {
+				_, e1 := fmt.Sscanf(parts[0], "%d", &t.ID)
+				_, e2 := fmt.Sscanf(parts[1], "%d", &t.Sender)
+				_, e3 := fmt.Sscanf(parts[2], "%d", &t.Seq)
+				t.Topic = parts[3]
+				ok = e1 == nil && e2 == nil && e3 == nil
+			}
+		}
+		if !ok {
+			junk++
+			s = s[1:]
+			continue
 		}
 		s = s[end+1:]
+		if fill >= 0 {
+			want := filler(t.ID, t.Sender, t.Seq, fill)
+			if len(s) >= fill && bytes.Equal(s[:fill], want) {
+				s = s[fill:]
+			} else {
+				t.BadFill = true // leave the bytes to be counted as junk / re-scanned for headers
+			}
+		}
+		tags = append(tags, t)
 	}
 	return
 }
